@@ -5,6 +5,7 @@ import (
 	"flag"
 	"fmt"
 	"math/big"
+	"os"
 	"sort"
 	"strings"
 	"testing"
@@ -85,13 +86,18 @@ func drawQuorum(t *rapid.T, p *policy.Policy, within uint64, label string) (mask
 		}
 	}
 	minimal = true
-	if rapid.Bool().Draw(t, label+"NonMinimal") {
-		for _, i := range perm {
-			if mask&(1<<uint(i)) == 0 && rapid.Bool().Draw(t, fmt.Sprintf("%sExtra%d", label, i)) {
-				mask |= 1 << uint(i)
-				minimal = false
-			}
+	var spare []int
+	for _, i := range perm {
+		if mask&(1<<uint(i)) == 0 {
+			spare = append(spare, i)
 		}
+	}
+	if len(spare) > 0 && rapid.Bool().Draw(t, label+"NonMinimal") {
+		extra := rapid.IntRange(1, len(spare)).Draw(t, label+"Extras")
+		for _, i := range spare[:extra] {
+			mask |= 1 << uint(i)
+		}
+		minimal = false
 	}
 	return mask, minimal
 }
@@ -100,7 +106,7 @@ func drawQuorum(t *rapid.T, p *policy.Policy, within uint64, label string) (mask
 // qualified subset of it. (Every qualified set has >= 2 members: policy.Draw returns no policy
 // with a qualified singleton, and the library's unanimity structure over prev needs two.)
 func drawPrev(t *rapid.T, p *policy.Policy, within uint64) (mask uint64, mode string) {
-	if rapid.Bool().Draw(t, "prevAll") {
+	if rapid.IntRange(0, 2).Draw(t, "prevAll") == 0 {
 		return within, "all"
 	}
 	mask, _ = drawQuorum(t, p, within, "prev")
@@ -222,6 +228,9 @@ func (m *machine) runEpochChange(t *rapid.T, what string, prevMask uint64, np *p
 		runners[id] = r
 	}
 	res, oc := netsim.RunAll(netsim.New(all), runners, netsim.Options{Idle: 60 * time.Second, Hard: 15 * time.Minute})
+	if timing {
+		fmt.Fprintf(os.Stderr, "TIMING %-40s %8.3fs\n", fmt.Sprintf("protocol %s parties=%d", m.g.Name(), len(all)), oc.Wall.Seconds())
+	}
 	if oc.HardStop {
 		t.Fatalf("%s: the protocol did not terminate", what)
 	}
@@ -401,6 +410,16 @@ func (m *machine) checkMixReconstruct(t *rapid.T, what string, old *epoch) {
 	}
 }
 
+func firstLine(s string) string {
+	if i := strings.IndexByte(s, '\n'); i >= 0 {
+		s = s[:i]
+	}
+	if len(s) > 300 {
+		s = s[:300]
+	}
+	return s
+}
+
 func bucket(n int) string {
 	switch {
 	case n == 0:
@@ -417,7 +436,16 @@ func bucket(n int) string {
 
 // ---- the state machine ------------------------------------------------------------------------
 
+var timing = os.Getenv("C06_TIMING") != ""
+
+func lap(label string, start time.Time) {
+	if timing {
+		fmt.Fprintf(os.Stderr, "TIMING %-40s %8.3fs\n", label, time.Since(start).Seconds())
+	}
+}
+
 func (m *machine) commit(t *rapid.T, what string, np *policy.Policy, nids []uint64, shards map[proto.ID]any) {
+	defer lap(fmt.Sprintf("invariants %s n=%d", m.g.Name(), np.N), time.Now())
 	m.archive = append(m.archive, m.cur)
 	m.cur = &epoch{no: m.cur.no + 1, p: np, ids: nids, key: structKey(np, nids), shards: shards}
 	m.epochChanges++
@@ -605,7 +633,9 @@ func (m *machine) doSign(t *rapid.T) {
 	seed := rapid.Uint64().Draw(t, "seed")
 	step := fmt.Sprintf("sign(%s epoch=%d quorum=%v msg=%s/%d)", sg.name(), m.cur.no, quorum, mcls, len(msg))
 	what := m.what(step)
+	start := time.Now()
 	out, panicked := trySign(sg, quorum, m.cur.shards, m.cur.shards[quorum[0]], m.pk, msg, seed, 60*time.Second, false)
+	lap(fmt.Sprintf("sign %s q=%d", sg.kind(), len(quorum)), start)
 	if panicked != "" {
 		t.Fatalf("%s: %s", what, panicked)
 	}
@@ -650,7 +680,9 @@ func (m *machine) mix(t *rapid.T) {
 	ref := m.cur.shards[quorum[0]]
 	step := fmt.Sprintf("mix-sign(%s quorum=%v: %v from epoch %d, rest from epoch %d, msg=%s/%d)", sg.name(), quorum, policy.IDList(m.cur.ids, pr[1]), old.no, m.cur.no, mcls, len(msg))
 	what := m.what(step)
+	start := time.Now()
 	out, panicked := trySign(sg, quorum, shards, ref, m.pk, msg, seed, 4*time.Second, true)
+	lap(fmt.Sprintf("mix-sign %s q=%d", sg.kind(), len(quorum)), start)
 	if panicked != "" {
 		t.Fatalf("%s: %s", what, panicked)
 	}
@@ -663,6 +695,7 @@ func (m *machine) mix(t *rapid.T) {
 	m.class("action=mix")
 	m.class("mix:%s:fails-at=%s", sg.kind(), out.stage)
 	m.class("mix:epoch-distance=%d", m.cur.no-old.no)
+	vlib.Sample("mix-sign:"+sg.kind()+":"+out.stage, map[string]any{"step": step, "stage": out.stage, "err": firstLine(out.err)})
 }
 
 // reload: every current shard goes through its CBOR encoding; the history continues with the
